@@ -1,6 +1,7 @@
 import XmppModel.Prelude.Hex
 import XmppModel.Model.Styling
 import XmppModel.Model.StylingSession
+import XmppModel.Model.StylingNest
 /-!
 Driver for C17 (see harness/c17 for the line protocol).
 
@@ -107,6 +108,10 @@ def handle (args : List String) : Option String :=
     match r.1 with
     | none => pure "PANIC"
     | some evs => pure (joinList (evs.map showEvent) ++ ";" ++ showEnd r.2)
+  | ["brk", doc] => do
+    -- the caller's bracket automaton over the masks the model returns (round F)
+    let d ← hexDecode doc
+    pure (showBool (maskBracketed d))
   | ["longdec", pre, n, suf, sizes, deof, lim] => do
     let p ← hexDecode pre; let k ← n.toNat?; let s ← hexDecode suf
     let sz ← parseNatList sizes; let de ← parseBool deof; let l ← parseLimit lim
